@@ -457,16 +457,27 @@ def mainLoop (rels : List (List Nat)) : Nat → TC → Nat → Option TC
 
 end TC
 
-/-- order of the presented group if the enumeration closes with at most `limit` cosets -/
+def insertByLength (w : List Nat) : List (List Nat) → List (List Nat)
+  | [] => [w]
+  | v :: vs => if w.length ≤ v.length then w :: v :: vs else v :: insertByLength w vs
+
+/-- order of the presented group if the enumeration closes with at most `limit` cosets
+    (relators are scanned shortest first) -/
 def orderTC (p : Pres) (limit : Nat) : Option Nat :=
   if p.ngens == 0 then some 1 else
   let ncols := 2 * p.ngens
   let triv := (List.range p.ngens).map fun k => [2 * k, 2 * k + 1]
-  let rels := triv ++ p.rels.map (·.map TC.colOf)
+  let rels := triv ++ (p.rels.map (·.map TC.colOf)).foldr insertByLength []
   let t0 : TC := { ncols := ncols, tab := Array.replicate (2 * ncols) 0, par := #[0, 1], n := 1, limit := limit }
   match TC.mainLoop rels (limit + 2) t0 1 with
   | none => none
   | some t => some (((List.range t.n).map (· + 1)).countP t.live)
+
+/-- two-stage enumeration: the small limit first, the large one only if that does not close -/
+def orderTC2 (p : Pres) (small large : Nat) : Option Nat :=
+  match orderTC p small with
+  | some n => some n
+  | none => orderTC p large
 
 /-! ## curvature and sphericity of 2D symbols, from the definitions -/
 
